@@ -51,6 +51,49 @@ def post_c12(run, scratch, seed):
 POST["c12"] = post_c12
 
 
+def _post_with_judge(prefix, script, python, counter_name):
+    def post(run, scratch, seed):
+        out = _empty()
+        files = sorted(glob.glob(os.path.join(scratch, f"{prefix}-cases-*.jsonl")))
+        if not files:
+            out["incon"].append(f"{prefix}: no case dumps found for the python judge")
+            return out
+        chunks = [files[i::16] for i in range(16) if files[i::16]]
+
+        def one(chunk):
+            p = subprocess.run([python, os.path.join(VROOT, "oracle", script)] + chunk, capture_output=True, text=True)
+            if p.returncode != 0:
+                return {"error": p.stderr[-800:]}
+            return json.loads(p.stdout)
+        with ThreadPoolExecutor(max_workers=16) as ex:
+            results = list(ex.map(one, chunks))
+        judged = 0
+        for r in results:
+            if "error" in r:
+                out["incon"].append("python judge failed: " + r["error"])
+                continue
+            judged += r["evaluations"]
+            for k, v in r["counters"].items():
+                out["counters"][k] = out["counters"].get(k, 0) + v
+            for k, v in r["viol_per_sig"].items():
+                out["viol_per_sig"][k] = out["viol_per_sig"].get(k, 0) + v
+            for v in r["violations"]:
+                v = dict(v)
+                v["run"] = {"engine": run["engine"], "variant": run["variant"], "features": run.get("features", []), "flags": {k: x for k, x in run.get("flags", {}).items() if k != "dump"},
+                            "budget": run["budget"], "case": v["case"].get("case_index"), "shard": 0, "nshards": 1, "seed": seed}
+                out["viols"].append(v)
+        out["counters"][counter_name] = judged
+        for f in files:
+            os.remove(f)
+        return out
+    return post
+
+
+import shutil as _sh
+PYVT = _sh.which("python3-vt") or "/opt/veriftools/pyvenv/bin/python3"
+POST["c15"] = _post_with_judge("c15", "openapi_judge.py", PYVT, "documents_judged_by_python")
+
+
 def R(engine, variant, budget, shards=16, flags=None, features=None, **kw):
     d = dict(engine=engine, variant=variant, budget=budget, shards=shards, flags=flags or {}, features=features or [])
     d.update(kw)
@@ -492,4 +535,32 @@ META["C18"] = dict(
                 "polls and wakes of the accept-loop task, not by waiting. Session scenarios check return-after-all-sessions on the same log."),
     level_note="Schedules inside each atomic operation are not explored; only rt_tokio; session scenarios are sampled and partly time-paced (verdicts use sequence numbers).",
     design_ref="DESIGN.md §5 C18",
+)
+
+
+PLANS["C15"] = dict(
+    level="exploration",
+    rule=("generated applications assembled from a catalogue of 9 handler signatures (0-2 path params of integer/string type; Query, JSON, URLEncoded extractors over derived schemas with and "
+          "without #[openapi(component)], nested components, the same component used by several operations; returns &str, String, JSON<T>, JSON<Vec<T>>, typed statuses Created/NoContent, "
+          "Result<_, E> with documented error statuses), routes with several methods, nesting by mounts with static and param prefixes (param naming across mounts), openapi::Tag fangs, JWT / "
+          "BasicAuth fangs at root or on a mounted application; every 8th case adds routes with more template params than the handler takes. The document bytes of "
+          "Ohkami::__openapi_document_bytes__ are judged by Python/jsonschema: JSON, OpenAPI 3.1, every schema position valid under Draft 2020-12, every $ref resolvable, every {p} a required path "
+          "parameter in order, (path, method) pairs = registered pairs, per operation the declared path-param types, query parameters, request-body media type, response codes, security iff a "
+          "guarding auth fang, tags, components; and one request built from each documented operation (template filled from declared parameter types, documented body media type and credentials) "
+          "must reach exactly the registered handler. distinct_nontrivial = distinct (signature set, nesting size, auth placement vector)."),
+    quick=[R("c15", "rel", 1_600, features=["openapi"], flags={"dump": "@SCRATCH"}, post="c15")],
+    thorough=[R("c15", "rel", 40_000, features=["openapi"], flags={"dump": "@SCRATCH"}, post="c15"), R("c15", "dbg", 2_000, features=["openapi"], flags={"dump": "@SCRATCH"}, post="c15")],
+    floors={"quick": {"evaluations": 1_600, "distinct": 300, "documents_judged_by_python": 1_600, "operations": 3_000, "schemas_validated": 8_000, "refs_resolved": 2_000, "probes": 3_000,
+                      "signature_used:0": 50, "signature_used:1": 50, "signature_used:2": 50, "signature_used:3": 50, "signature_used:4": 50, "signature_used:5": 50, "signature_used:6": 50,
+                      "signature_used:7": 50, "signature_used:8": 50},
+            "thorough": {"evaluations": 40_000, "documents_judged_by_python": 40_000}},
+    assumptions=["the expectations per signature (param types, query params, body media type, response codes) are written by hand in the catalogue table (engines/c15.rs SIGS)",
+                 "at most one authentication fang guards a path (a probe request carries one Authorization header)", "Multipart and SSE signatures are not in the catalogue"],
+)
+META["C15"] = dict(
+    engine="vh c15 (openapi feature build) + oracle/openapi_judge.py",
+    technique="runtime monitoring: the real document generator is executed on generated applications; documents are judged offline by an independent Python checker (jsonschema 2020-12, ref resolution, description-vs-document comparison) and cross-checked by sending one request per documented operation through the real router",
+    level_text="Documents are produced by the real code for generated applications and checked structurally and against the description; documented operations are exercised against the real router and must reach the registered handler.",
+    level_note="Trusts the jsonschema package, the judge and the hand-written catalogue expectations. Sampled applications from a 9-signature catalogue.",
+    design_ref="DESIGN.md §5 C15",
 )
